@@ -11,7 +11,7 @@ LEVEL = "model_checking"
 def run(ctx):
     ctx.code()
     from hydrodiy.data import dutils
-    res = ctx.tlc("AggIndexDump", "MC_AggIndex_%s.cfg" % ctx.tier, workers=8, timeout=1800, heap="6g")
+    res = ctx.tlc("AggIndexDump", "MC_AggIndex_%s.cfg" % ctx.tier, timeout=1800, heap="6g")
     if res.violated:
         raise Machinery("AggIndex.tla violates its checks: %s" % res.violated)
     cases = res.printed()
